@@ -133,14 +133,12 @@ def c05_r1(ctx):
             else:
                 ctx.ok()
     # no other way to consume a channel
-    for fn in ctx.P.fns.values():
-        if fn.body.get("in_test"):
-            continue
-        for c in fn.calls:
-            if c.path.startswith("std::sync::mpsc::Receiver::<T>::") and c.name in ("try_recv", "recv_timeout", "try_iter", "iter", "recv_deadline"):
-                ctx.viol((fn.id, "nonblocking-recv", c.name), "channel consumed with %s: arrival order or absence becomes observable" % c.name, c.where)
-            if c.path.startswith("std::sync::mpsc::Sender::<T>::") and c.name not in ("send", "clone"):
-                ctx.viol((fn.id, "sender-api", c.name), "unexpected Sender API %s" % c.name, c.where)
+    import zero
+    for (fn, c, kind) in zero.nonblocking_channel_calls([f for f in ctx.P.fns.values() if not f.body.get("in_test")]):
+        if kind == "recv":
+            ctx.viol((fn.id, "nonblocking-recv", c.name), "channel consumed with %s: arrival order or absence becomes observable" % c.name, c.where)
+        else:
+            ctx.viol((fn.id, "sender-api", c.name), "unexpected Sender API %s" % c.name, c.where)
 
 
 def _recv_loop(ctx, d):
